@@ -84,12 +84,13 @@ class Run:
             self.facts.append((tag, label, e))
 
     # -- hypothesis closure ----------------------------------------------------------------
-    def closure(self, exprs):
-        """All definitional facts reachable from the free constants of `exprs`."""
-        seen_vars, out, stack = set(), [], list(exprs)
+    def closure(self, exprs, depth=None):
+        """All definitional facts reachable from the free constants of `exprs` (within `depth` rounds of unfolding when given: fewer hypotheses, never more)."""
+        seen_vars, out = set(), []
         seen_defs = set()
-        while stack:
-            e = stack.pop()
+        level = [(e, 0) for e in exprs]
+        while level:
+            e, dp = level.pop()
             for v in _fc(e):
                 if v in seen_vars:
                     continue
@@ -99,16 +100,25 @@ class Run:
                         continue
                     seen_defs.add(d.get_id())
                     out.append(d)
-                    stack.append(d)
+                    if depth is None or dp + 1 < depth:
+                        level.append((d, dp + 1))
         return out
 
     def context(self, goal=None, using=None):
         """Hypotheses for an obligation: path facts (all, or those whose label is in `using`)
         plus the definitional closure of everything mentioned."""
+        depth = None
         if using is None:
             facts = [f for (_, _, f) in self.facts]
         else:
-            facts = [f for (tag, lab, f) in self.facts if lab in using or tag in using]
+            # "@depth=N" in `using`: unfold definitions only N rounds, starting from the goal alone (the listed facts are taken as they are)
+            for u in using:
+                if isinstance(u, str) and u.startswith("@depth="):
+                    depth = int(u.split("=")[1])
+            plain = {u[1:] if isinstance(u, str) and u.startswith("~") else u for u in using}
+            facts = [f for (tag, lab, f) in self.facts if lab in plain or tag in plain]
+        if depth is not None:
+            return facts + self.closure([goal] if goal is not None else [], depth)
         base = list(facts) + ([goal] if goal is not None else [])
         return facts + self.closure(base)
 
@@ -158,6 +168,26 @@ class Run:
         hyps = self.context(goal, using) + list(extra_hyps)
         if extra_hyps:
             hyps += self.closure(list(extra_hyps))
+        if using is not None and any(isinstance(u, str) and u.startswith("~") for u in using):
+            # equals for equals: every fact listed with a leading ~ and of the form `compound term == simpler term` (or `ghost name == compound term`) is used as a rewrite
+            # rule on the hypotheses and the goal, so that the large
+            # terms the code built no longer appear (sound: each rule is itself a hypothesis); the definitions of what the rewritten formulas mention are then added
+            rules = []
+            as_rules = {u[1:] for u in using if isinstance(u, str) and u.startswith("~")}
+            for (tag, lab, f) in self.facts:
+                if lab not in as_rules or not z3.is_eq(f):
+                    continue
+                if tag == "ghost" and f.arg(1).num_args() > 0:
+                    rules.append((f.arg(1), f.arg(0)))      # ghost name == compound term: the term is folded into its name
+                elif f.arg(0).num_args() > 0 and not z3.is_app_of(f.arg(0), z3.Z3_OP_UMINUS):
+                    rules.append((f.arg(0), f.arg(1)))
+            new_hyps = [z3.substitute(h, *rules) if rules else h for h in hyps]
+            goal2 = z3.substitute(goal, *rules) if rules else goal
+            rule_facts = [l == r for (l, r) in rules]
+            hyps = [h for h in new_hyps if not z3.is_true(z3.simplify(h))] + self.closure(new_hyps + [goal2], depth=2)
+            # the rules themselves stay available in their original form only through what they rewrote
+            goal = goal2
+            meta = dict(meta or {}, rewritten=len(rules))
         self.obls.append(Obligation(name, kind, hyps, goal, meta))
 
     def safety(self, what, goal):
@@ -1184,9 +1214,15 @@ def arctan2(y, x):
         return math.atan2(y, x)
     run = cur()
     ey, ex = real_expr(y), real_expr(x)
+    # a function: the same two argument terms give the same angle (lets a contract name the angle the code computes)
+    memo = run.__dict__.setdefault("atan2_memo", {})
+    key = (ey.get_id(), ex.get_id())
+    if key in memo:
+        return SReal(memo[key][0])
     run.safety("arctan2", z3.Or(ey != 0, ex != 0))
     pi = run.pi
     a, c, s = _fresh_angle("atan2", -pi, pi, True, False)
+    memo[key] = (a, ey, ex)
     rho = run.fresh("rho")
     run.add_def(rho, rho > 0, rho * rho == ex * ex + ey * ey)
     run.add_def(a, c * rho == ex, s * rho == ey, rho > 0, rho * rho == ex * ex + ey * ey)
